@@ -596,7 +596,17 @@ def gen_ll1(vs):
                 return 'DLeaf tree label N (%s) (convert_leaf gram_%s (nth %d ex_toks_%s ex_tok0))' % (lab(toks[x[1]]), n, x[1], n)
             return 'DNode tree label N %d [%s]' % (rid[x[1]], '; '.join(emit(k) for k in x[2]))
         F = rid['file_input']
-        out = ['(* GENERATED by harness/translator.py - do not edit *)', 'Require Import Regex Tok Engine LL1 LL1Inst LL1Engine EngineSound Grammars.',
+        # holder rules (C05, error confinement): least set with file_input, suite and every rule that has an arc labelled by a holder
+        hold = {'file_input', 'suite'}
+        changed = True
+        while changed:
+            changed = False
+            for r, dfas in pg.nonterminal_to_dfas.items():
+                if r not in hold and any(l in hold for st in dfas for l in st.arcs):
+                    hold.add(r)
+                    changed = True
+        hold_names = sorted(hold, key=lambda r: rid[r])
+        out = ['(* GENERATED by harness/translator.py - do not edit *)', 'Require Import Regex Tok Engine LL1 LL1Inst LL1Engine EngineSound EngineConfine Grammars.',
                'From Coq Require Import List NArith ZArith Bool.', 'Import ListNotations.', 'Open Scope N_scope.',
                '(* table obligation: every hypothesis of the completeness theorem holds for the tables of this grammar *)',
                'Lemma ll1_tables_ok_%s : tables_ok gram_%s tr_%s fw_%s 200 = true.' % (n, n, n, n),
@@ -629,7 +639,31 @@ def gen_ll1(vs):
                'Proof. exact (engine_sound gram_%s tr_%s ll1_tables_sound_ok_%s). Qed.' % (n, n, n),
                '(* non-vacuity: the example token list is accepted without repair *)',
                'Example C05_nonvacuous_%s : match parse_nr gram_%s tr_%s %d ex_toks_%s with POk _ => True | PErr _ => False end.' % (n, n, n, F, n),
-               'Proof. vm_compute. exact I. Qed.']
+               'Proof. vm_compute. exact I. Qed.',
+               '(* error confinement (C05, second sentence).  The holder set computed from the automata of this grammar is',
+               '   {%s}: file_input, suite and the rules from which a suite can be reached through arcs - no expression and no simple statement rule. *)' % ', '.join(hold_names),
+               'Definition holders_%s : list N := holders gram_%s.' % (n, n),
+               'Lemma holders_%s_are : let expected := [%s] in' % (n, '; '.join(str(rid[r]) for r in hold_names)),
+               '  forallb (fun r => existsb (N.eqb r) holders_%s) expected && forallb (fun r => existsb (N.eqb r) expected) holders_%s = true.' % (n, n),
+               'Proof. vm_compute. reflexivity. Qed.',
+               '(* table obligation: plans keep the rule they leave and push only chains that respect the holder set, arcs stay inside their rule,',
+               '   file_input and suite are holders, parameters / lambdef are not *)',
+               'Lemma confine_ok_%s : confine_ok gram_%s tr_%s holders_%s = true.' % (n, n, n, n),
+               'Proof. vm_compute. reflexivity. Qed.',
+               '(* hence: in every tree this grammar\'s engine returns for a file_input parse (strict or recovering, any token list) an error node / error leaf is a',
+               '   child only of a node whose rule is a holder (or of an error node); param nodes never have one *)',
+               'Theorem C05_errors_confined_%s : forall recover toks t, parse gram_%s tr_%s recover %d toks = POk t -> good holders_%s t = true.' % (n, n, n, F, n),
+               'Proof.',
+               '  intros recover toks t H. eapply (errors_confined gram_%s tr_%s holders_%s confine_ok_%s recover %d);' % (n, n, n, n, F),
+               '    [vm_compute; reflexivity|vm_compute; reflexivity|exact H].',
+               'Qed.',
+               '(* non-vacuity: a recovering parse of a broken token list puts its error node under file_input and the tree is good; the same tree with the',
+               '   error node moved under the expression statement is not *)',
+               'Example C05_confined_nonvacuous_%s :' % n,
+               '  match parse gram_%s tr_%s true %d (firstn 12 ex_toks_%s ++ [mkTok ENDMARKER [] 9 0 []]) with' % (n, n, F, n),
+               '  | POk t => good holders_%s t = true /\\ no_error t = false' % n,
+               '  | PErr _ => False end.',
+               'Proof. vm_compute. split; reflexivity. Qed.']
         write_if_changed(os.path.join(GEN, 'LL1_%s.v' % n), '\n'.join(out) + '\n')
 
 
